@@ -145,8 +145,29 @@ def main():
     ftie = None
     if prop in props.FORMULA_DEFS and not args.replay:
         ftie = props.run_formulas(prop)
+    # tie by translation of the per-metric types (C20; and C01-C05, C13 for the Value / IsChanged methods their equations
+    # read): Generated/Tables.lean is rewritten from the source text and Props/SrcTab.lean is re-checked
+    ttie = None
+    if prop in props.TABLE_DEFS and not args.replay:
+        ttie = props.run_tables(prop)
     po = proof_obligations(spec)
     po["broken"] = broken_ties + po["broken"]
+    if ttie and ttie["status"] == "proved" and prop == "C20":
+        listed, err = audit([props.TAB_MODULE])
+        by = {d.get("theorem"): d for d in listed if "theorem" in d}
+        for t in props.TAB_THEOREMS:
+            full = props.TAB_MODULE + "." + t
+            d = by.get(full)
+            po["obligations"] += 1
+            if d is None:
+                po["broken"].append("theorem missing: " + full)
+                continue
+            ax = set(d.get("axioms", []))
+            po["axioms"][full] = sorted(ax)
+            if ax <= ALLOWED_AXIOMS:
+                po["discharged"] += 1
+            else:
+                po["broken"].append("theorem %s depends on %s" % (full, sorted(ax - ALLOWED_AXIOMS)))
     if ftie and ftie["status"] == "proved":
         listed, err = audit([props.SRC_MODULE])
         by = {d.get("theorem"): d for d in listed if "theorem" in d}
@@ -164,7 +185,8 @@ def main():
             else:
                 po["broken"].append("theorem %s depends on %s" % (full, sorted(ax - ALLOWED_AXIOMS)))
     tie_lost = bool(ftie and ftie["status"] == "lost" and ftie["relevant"])
-    if tie_lost and tier == "quick":
+    tab_lost = bool(ttie and ttie["status"] == "lost" and ttie["relevant"])
+    if (tie_lost or tab_lost) and tier == "quick":
         tier_run = "escalated"
     else:
         tier_run = tier
@@ -191,6 +213,14 @@ def main():
                "(Props/Src.lean does not check: %s); the search was widened (%s streams, %d evaluations)" % (
                    ", ".join(ftie["relevant"]), ftie["note"][:400], tier_run, outcome.evaluations))
         if prop in props.FORMULA_TIE_REQUIRED:
+            po["broken"].append(msg)
+        else:
+            print("NOTE: " + msg + "; this property's domain is enumerated by the correspondence, which stands")
+    if tab_lost:
+        msg = ("tie by translation lost: the source text of %s is understood by go/tables but is no longer provably the model's "
+               "(Proofs/Tables.lean does not check: %s); the search was widened (%s streams, %d evaluations)" % (
+                   ", ".join(ttie["relevant"][:12]), ttie["note"][:400], tier_run, outcome.evaluations))
+        if prop == "C20" or prop in props.FORMULA_TIE_REQUIRED:
             po["broken"].append(msg)
         else:
             print("NOTE: " + msg + "; this property's domain is enumerated by the correspondence, which stands")
@@ -224,6 +254,18 @@ def main():
                             "lost-elsewhere": "an equality about a function this property is not about no longer checks; those it is about do",
                             "lost": "the source is understood but no longer provably the model; search widened"}[ftie["status"]]}
                 if ftie else "not used by this property"),
+            "table_translation": ({
+                "status": ttie["status"], "translator": ttie["translator"], "functions_translated": ttie.get("functions", 0),
+                "definitions_differing_from_pinned_tree": ttie["changed"][:40],
+                "functions_no_longer_provably_the_model": ttie.get("failed", [])[:40],
+                "functions_outside_the_translators_subset": ttie.get("not_understood", [])[:60],
+                "of_which_this_property_is_about": ttie["relevant"][:40], "translator_output": ttie["note"][:600],
+                "module": props.TAB_MODULE,
+                "meaning": {"proved": "every per-metric function this property is about (GetXxx, String, Value, validity, IsChanged) as translated from the source text equals the model's for all strings / integers",
+                            "not-understood": "a function this property is about is outside the translator's subset (it carries the reference text, nothing is claimed about it); the tie of this run is the correspondence alone",
+                            "lost-elsewhere": "an equality about a function this property is not about no longer checks; those it is about do",
+                            "lost": "the source is understood but no longer provably the model; search widened"}[ttie["status"]]}
+                if ttie else "not used by this property"),
             "names_tables_source": ("go/extract (source translator)" if props.NAMES_SOURCE == "ast" else
                                     "behavioural probe of the names functions on -130..130 (fallback; claims for integers outside that "
                                     "range are not covered in this run): " + props.NAMES_NOTE[:300]) if getattr(spec, "needs_extract", False) else "not used",
